@@ -120,17 +120,21 @@ def leafs(v, rng):
         for n in (0, 1, 20):
             yield "data_%d_%d" % (dt, n), isogen.data_box(dt, v.bytes(n))
     yield "vpcc", full("vpcC", 1, 0, [F(1, v.u(1)), F(1, v.u(1)), F(1, v.u(1)), F(1, v.u(1)), F(1, v.u(1)), F(1, v.u(1)), F(2, 0)])
-    yield "url_self", full("url ", 0, 1)
-    yield "url_loc", full("url ", 0, 0, [Raw(b"http://x/" + bytes([97 + v.u(1, 26)]) + b"\0")])
-    yield "url_utf8", full("url ", 0, 0, [Raw("http://x/\u00e9t\u00e9\0".encode())])
+    # url entries: the crate exports DinfBox only, so every url variant is wrapped in dinf > dref (a bare url box is also generated: the model decodes it)
+    urls = [("url_self", full("url ", 0, 1)),
+            ("url_loc", full("url ", 0, 0, [Raw(b"http://x/" + bytes([97 + v.u(1, 26)]) + b"\0")])),
+            ("url_utf8", full("url ", 0, 0, [Raw("http://x/\u00e9t\u00e9\0".encode())])),
+            ("url_fl0_nul", full("url ", 0, 0, [Raw(b"\0")]))]
     # the self-contained flag (bit 0) set together with a location string, other flag bits, an empty location without the flag
     for fl in (1, 3, 0x101, 0xFFFFFF, 2, 0xFFFFFE):
-        yield "url_fl%x_loc" % fl, full("url ", 0, fl, [Raw(b"file:///" + bytes([97 + v.u(1, 26)]) + b"\0")])
-        yield "url_fl%x_empty" % fl, full("url ", 0, fl)
-    yield "url_fl0_nul", full("url ", 0, 0, [Raw(b"\0")])
+        urls.append(("url_fl%x_loc" % fl, full("url ", 0, fl, [Raw(b"file:///" + bytes([97 + v.u(1, 26)]) + b"\0")])))
+        urls.append(("url_fl%x_empty" % fl, full("url ", 0, fl)))
     for n in (4, 33):
-        yield "url_counted_%d" % n, full("url ", 0, 0, [Raw(bytes([n]) + b"u" * (n - 1) + b"\0")])
+        urls.append(("url_counted_%d" % n, full("url ", 0, 0, [Raw(bytes([n]) + b"u" * (n - 1) + b"\0")])))
         yield "emsg_counted_%d" % n, isogen.emsg(n % 2, v.u(4), v.u(4), v.u(4), v.u(4), bytes([n]) + b"s" * (n - 1), bytes([n - 1]) + b"v" * (n - 1), v.bytes(2))
+    for lab, u in urls:
+        yield lab, u
+        yield "dinf_" + lab, Box("dinf", [full("dref", v.u(1), v.u(3), [F(4, 1, "count"), u])])
     yield "dinf", isogen.dinf()
 
 
@@ -153,6 +157,8 @@ def entries(v, rng):
     yield "vp09", isogen.visual_entry("vp09", w, h, [full("vpcC", 1, 0, [F(1, v.u(1)), F(1, v.u(1)), F(1, v.u(1)), F(1, v.u(1)), F(1, v.u(1)), F(1, v.u(1)), F(2, 0)])])
     # the full 4-bit range of the channel configuration (values 8..15 have no ChannelConfig variant but are wire values) and of the frequency index
     wide = [(2, 3, ch, 0) for ch in (0, 3, 4, 5, 8, 9, 10, 11, 12, 13, 14, 15)] + [(2, fi, 2, 0) for fi in (1, 2, 5, 6, 7, 8, 9, 10, 13, 14)] + [(a, 4, 2, 0) for a in (3, 4, 6, 17, 23, 30)]
+    # samplingFrequencyIndex 15: an explicit 24-bit frequency follows the index (known finding D95: the value has no field for it)
+    wide += [(2, 15, 2, 0), (2, 15, 0, 0), (5, 15, 1, 0)]
     for aot, fi, ch, pad in [(2, 3, 2, 0), (1, 0, 1, 0), (5, 12, 7, 0), (29, 4, 6, 0), (2, 3, 2, 3), (36, 3, 2, 0), (32, 11, 1, 1)] + wide:
         yield "mp4a_%d_%d_%d_p%d" % (aot, fi, ch, pad), isogen.mp4a(aot, fi, ch, v.u(4), v.u(2), pad)
     yield "mp4a_noesds", Box("mp4a", [Raw(b"\0" * 6), F(2, 1), F(8, 0), F(2, 2), F(2, 16), F(4, 0), F(4, 48000 << 16)])
